@@ -272,6 +272,9 @@ class PathResult:
         return self.ctx.assumptions + self.ctx.path_condition()
 
 
+PATH_RESETS = []         # callables run before every path (the loader registers one per loaded module)
+
+
 def explore(fn, assumptions=(), feasible=None, max_paths=4096, catch=(Exception,), setup=None):
     """Run fn() under every feasible combination of symbolic decisions.
 
@@ -281,6 +284,8 @@ def explore(fn, assumptions=(), feasible=None, max_paths=4096, catch=(Exception,
     stack = [[]]
     while stack:
         prefix = stack.pop()
+        for r in PATH_RESETS:
+            r()                      # state the analysed modules keep between calls (memoised functions) starts empty on every path
         c = Context(assumptions, prefix, feasible)
         prev = Context.current
         Context.current = c
